@@ -269,8 +269,8 @@ Variable ws : list winput.
 Hypothesis Hwf : wf_cfg c = true.
 
 (* PieceReader contract: the stream is not longer than Length() says *)
-Definition honest (w : winput) : Prop := (Z.of_nat (length (payload w)) <= w_decl w)%Z.
-Hypothesis Hhonest : forall w, In w ws -> honest w.
+Definition honestP (w : winput) : Prop := (Z.of_nat (length (payload w)) <= w_decl w)%Z.
+Hypothesis Hhonest : forall w, In w ws -> honestP w.
 
 Let n := npieces c.
 
@@ -310,6 +310,8 @@ Definition tinv (s : tstate) (w : winput) (p : pc) : Prop :=
   | PStore => accepted s w /\ ncomp s = npieces c /\ incache s = true
   | PDone ROk => accepted s w
   | PDone RWriteErr => exists i, valid_idx w i /\ w_hsum w <> psum c i
+  | PDone RComplete | PDone RConflict => exists i, valid_idx w i
+  | PDone RMoveErr => False
   | PDone _ => True
   end.
 
@@ -615,19 +617,21 @@ Proof.
     apply orb_false_elim in E1 as [E1 E2]. apply Z.ltb_ge in E1. apply Z.leb_gt in E2.
     destruct (w_decl w =? Z.of_nat (plen c (Z.to_nat (w_idx w))))%Z eqn:E3.
     + inversion Hs; subst. eapply inv_silent; eauto. split; simpl; auto.
-      apply Z.eqb_eq in E3. pose proof (Hhonest w Hin) as Hh. unfold honest in Hh.
+      apply Z.eqb_eq in E3. pose proof (Hhonest w Hin) as Hh. unfold honestP in Hh.
       unfold valid_idx. rewrite Z2Nat.id by lia. repeat split; auto; lia.
     + inversion Hs; subst. eapply inv_silent; eauto. split; simpl; auto.
   - (* PChecked *)
+    simpl in Ht.
     destruct (pstatus_eqb (st_at s i) Complete); inversion Hs; subst;
-      eapply inv_silent; eauto; split; simpl; auto.
+      eapply inv_silent; eauto; split; simpl; eauto.
   - (* PNotComplete *)
+    simpl in Ht.
     destruct (pstatus_eqb (st_at s i) Dirty); inversion Hs; subst;
-      eapply inv_silent; eauto; split; simpl; auto.
+      eapply inv_silent; eauto; split; simpl; eauto.
   - (* PNotDirty *)
     simpl in Ht. pose proof (valid_idx_lt _ _ Ht) as Hi.
     destruct (st_at s i) eqn:Est; inversion Hs; subst; clear Hs;
-      [ | eapply inv_silent; eauto; split; simpl; auto | eapply inv_silent; eauto; split; simpl; auto ].
+      [ | eapply inv_silent; eauto; split; simpl; eauto | eapply inv_silent; eauto; split; simpl; eauto ].
     assert (Hsc : nth i (sidecar s) 0%N <> 1%N).
     { intros H. apply (I_sc_nonempty _ _ I i Hi H). exact Est. }
     destruct (others_not_own s pre (mkth w (PNotDirty i)) post i I Hi) as [Z1 Z2];
@@ -880,10 +884,16 @@ Proof.
   destruct H; auto. apply (I_comm _ _ I). auto.
 Qed.
 
-Lemma count_marked_done : forall ths, forallb thread_done ths = true -> count_marked ths = 0.
+Lemma count_marked_done : forall ths, forallb thread_idle ths = true -> count_marked ths = 0.
 Proof.
   induction ths; simpl; intros H; auto. apply andb_prop in H as [H1 H2]. rewrite IHths by auto.
-  unfold thread_done in H1. destruct (t_pc a); simpl; auto; discriminate.
+  unfold thread_idle in H1. destruct (t_pc a); simpl; auto; discriminate.
+Qed.
+
+Lemma quiescent_idle : forall S, quiescent S = true -> idle S = true.
+Proof.
+  intros S H. unfold quiescent, idle in *. rewrite forallb_forall in *. intros t Ht.
+  specialize (H t Ht). unfold thread_done in H. unfold thread_idle. destruct (t_pc t); auto.
 Qed.
 
 Lemma count_marked_le : forall ths, count_marked ths <= length ths.
@@ -893,40 +903,40 @@ Lemma progress_accounting : forall S, SInv S ->
   ncomp (s_st S) + count_marked (s_ths S) = count_st Complete (status (s_st S)).
 Proof. intros S I. apply (I_count _ _ I). Qed.
 
-Lemma progress_quiescent : forall S, SInv S -> quiescent S = true ->
+Lemma progress_idle : forall S, SInv S -> idle S = true ->
   ncomp (s_st S) = count_st Complete (status (s_st S)).
 Proof.
-  intros S I Q. pose proof (I_count _ _ I) as H. unfold quiescent in Q.
+  intros S I Q. pose proof (I_count _ _ I) as H. unfold idle in Q.
   rewrite (count_marked_done _ Q) in H. lia.
 Qed.
 
-Lemma not_committing_done : forall ths, forallb thread_done ths = true ->
+Lemma not_committing_done : forall ths, forallb thread_idle ths = true ->
   ~ Exists (fun th => committing (t_pc th)) ths.
 Proof.
   intros ths H E. apply Exists_exists in E as (th & Hin & Hc).
-  rewrite forallb_forall in H. specialize (H th Hin). unfold thread_done in H.
+  rewrite forallb_forall in H. specialize (H th Hin). unfold thread_idle in H.
   destruct (t_pc th); simpl in *; try discriminate; auto.
 Qed.
 
 (* nothing is lost: when every caller has returned and every piece is complete, the torrent
    is committed *)
-Lemma commit_not_lost : forall S, SInv S -> quiescent S = true ->
+Lemma commit_not_lost : forall S, SInv S -> idle S = true ->
   (forall i, i < npieces c -> st_at (s_st S) i = Complete) ->
   committed (s_st S) = true /\ incache (s_st S) = true.
 Proof.
-  intros S I Q Hall. pose proof (progress_quiescent S I Q) as Hn.
+  intros S I Q Hall. pose proof (progress_idle S I Q) as Hn.
   assert (Hc : count_st Complete (status (s_st S)) = npieces c).
   { rewrite <- (I_len_st _ _ I). clear Hn. revert Hall. rewrite <- (I_len_st _ _ I).
     unfold st_at. generalize (status (s_st S)). induction l; simpl; intros H; auto.
     pose proof (H 0 ltac:(lia)) as H0. simpl in H0. subst a. simpl. f_equal. apply IHl.
-    intros i Hi. apply (H (S i)). lia. }
+    intros i Hi. apply (H (Datatypes.S i)). lia. }
   rewrite Hc in Hn. destruct (I_live _ _ I Hn) as [H|H].
   - split; auto. apply (I_comm _ _ I H).
   - exfalso. eapply not_committing_done; eauto.
 Qed.
 
 (* ---- what one step can change ---- *)
-Lemma frame_pwrite : forall s i dn ch,
+Lemma frame_pwrite : forall s i (dn ch : list N),
   i < npieces c -> length (file s) = c_len c -> length dn + length ch <= plen c i ->
   frame i s (set_file s (pwrite (file s) (poff c i + length dn) ch)).
 Proof.
@@ -941,6 +951,8 @@ Qed.
 Lemma frame_set_sidecar : forall s i v, frame i s (set_sidecar s (upd i v (sidecar s))).
 Proof. intros. constructor; simpl; auto. intros. apply nth_upd_neq. auto. Qed.
 
+Ltac eff_left := left; simpl; repeat split; auto; try discriminate; try congruence.
+
 Lemma tstep_effect : forall s s' pre post w p p',
   Inv s (pre ++ mkth w p :: post) -> tstep c s w p = (s', p') ->
   (status s' = status s /\ file s' = file s /\ sidecar s' = sidecar s /\
@@ -952,31 +964,31 @@ Proof.
   pose proof (I_len_f _ _ I) as Lf.
   destruct p; cbn [tstep] in Hs.
   - destruct ((w_idx w <? 0)%Z || (Z.of_nat (length (status s)) <=? w_idx w)%Z);
-      [|destruct (w_decl w =? Z.of_nat (plen c (Z.to_nat (w_idx w))))%Z]; inversion Hs; subst; left; auto.
-  - destruct (pstatus_eqb (st_at s i) Complete); inversion Hs; subst; left; auto.
-  - destruct (pstatus_eqb (st_at s i) Dirty); inversion Hs; subst; left; auto.
-  - simpl in Ht. destruct (st_at s i) eqn:E; inversion Hs; subst; [|left; auto|left; auto].
+      [|destruct (w_decl w =? Z.of_nat (plen c (Z.to_nat (w_idx w))))%Z]; inversion Hs; subst; eff_left.
+  - destruct (pstatus_eqb (st_at s i) Complete); inversion Hs; subst; eff_left.
+  - destruct (pstatus_eqb (st_at s i) Dirty); inversion Hs; subst; eff_left.
+  - simpl in Ht. destruct (st_at s i) eqn:E; inversion Hs; subst; [|eff_left|eff_left].
     right. exists i. split; [apply Ht|]. split; [rewrite E; discriminate|]. apply frame_set_status.
-  - destruct (incache s); inversion Hs; subst; left; auto.
+  - destruct (incache s) eqn:Ec; inversion Hs; subst; eff_left.
   - simpl in Ht. destruct Ht as (Hv & [Hd Hsc] & dn & Ep & Epos & Epre).
     destruct rest as [|ch rest].
-    + destruct (w_hsum w =? psum c i)%N; inversion Hs; subst; left; auto.
+    + destruct (w_hsum w =? psum c i)%N; inversion Hs; subst; eff_left.
     + inversion Hs; subst. right. exists i. split; [apply Hv|]. split; [rewrite Hd; discriminate|].
       apply frame_pwrite; auto; [apply Hv|].
       destruct Hv as (_ & _ & _ & Hl & _). rewrite Ep in Hl. simpl in Hl. rewrite !app_length in Hl. lia.
   - simpl in Ht. destruct Ht as (Hv & [Hd Hsc] & _).
-    destruct (incache s); [inversion Hs; subst; left; auto|].
-    destruct (i <? length (sidecar s)); inversion Hs; subst; [|left; auto].
+    destruct (incache s) eqn:Ec; [inversion Hs; subst; eff_left|].
+    destruct (i <? length (sidecar s)); inversion Hs; subst; [|eff_left].
     right. exists i. split; [apply Hv|]. split; [rewrite Hd; discriminate|]. apply frame_set_sidecar.
   - simpl in Ht. destruct Ht as (Hv & Hd & _). inversion Hs; subst.
     right. exists i. split; [apply Hv|]. split; [rewrite Hd; discriminate|]. apply frame_set_status.
-  - inversion Hs; subst; left; auto.
-  - destruct (ncomp s =? length (status s)); inversion Hs; subst; left; auto.
-  - inversion Hs; subst; left; simpl; auto.
-  - inversion Hs; subst; left; auto.
+  - inversion Hs; subst; eff_left.
+  - destruct (ncomp s =? length (status s)); inversion Hs; subst; eff_left.
+  - inversion Hs; subst; eff_left.
+  - inversion Hs; subst; eff_left.
   - simpl in Ht. destruct Ht as (Hv & [Hd _] & _). inversion Hs; subst.
     right. exists i. split; [apply Hv|]. split; [rewrite Hd; discriminate|]. apply frame_set_status.
-  - inversion Hs; subst; left; auto.
+  - inversion Hs; subst; eff_left.
 Qed.
 
 Lemma sys_step_effect : forall S k, SInv S ->
@@ -1031,4 +1043,136 @@ Proof.
   destruct (IHsched (sys_step c S a) (inv_sys_step _ _ I) H1) as [H3 H4]. split; auto. congruence.
 Qed.
 
+
+(* ---- restart of an idle torrent restores exactly the in-memory state ---- *)
+Lemma idle_no_dirty : forall S i, SInv S -> idle S = true -> i < npieces c -> st_at (s_st S) i <> Dirty.
+Proof.
+  intros S i I Q Hi Hd. pose proof (I_own _ _ I i Hi) as H. unfold dirty01 in H. rewrite Hd in H. simpl in H.
+  assert (Z : count_own i (s_ths S) = 0).
+  { unfold idle in Q. clear H. induction (s_ths S) as [|t l IH]; simpl in *; auto.
+    apply andb_prop in Q as [Q1 Q2]. rewrite IH by auto. unfold thread_idle in Q1.
+    destruct (t_pc t); simpl; auto; discriminate. }
+  lia.
+Qed.
+
+Lemma tstate_ext : forall a b, status a = status b -> file a = file b -> sidecar a = sidecar b ->
+  ncomp a = ncomp b -> committed a = committed b -> incache a = incache b -> a = b.
+Proof. destruct a, b; simpl; intros; subst; reflexivity. Qed.
+
+Lemma reopen_identity : forall S, SInv S -> idle S = true ->
+  new_torrent c (file (s_st S)) (Some (sidecar (s_st S))) (incache (s_st S)) = s_st S.
+Proof.
+  intros S I Q. destruct S as [s ths]. simpl in *. unfold SInv in I. simpl in I.
+  pose proof (I_len_st _ _ I) as Lst. pose proof (I_len_sc _ _ I) as Lsc.
+  pose proof (progress_idle (mksys s ths) I Q) as Hn. simpl in Hn.
+  assert (Hlive : ncomp s = npieces c -> committed s = true /\ incache s = true).
+  { intros H. destruct (I_live _ _ I H) as [A|A].
+    - split; auto. apply (I_comm _ _ I A).
+    - exfalso. eapply not_committing_done; eauto. }
+  unfold new_torrent. destruct (incache s) eqn:Ec.
+  - pose proof (I_cache _ _ I Ec) as Hc. destruct (Hlive Hc) as [Hco _].
+    apply tstate_ext; simpl; auto.
+    apply nth_ext with (d := Empty) (d' := Empty); [rewrite repeat_length; auto|].
+    intros i Hi. rewrite repeat_length in Hi. rewrite nth_repeat_any by auto.
+    symmetry. apply (incache_all_complete _ _ I Ec i Hi).
+  - assert (Est : map deser_status (sidecar s) = status s).
+    { apply nth_ext with (d := Empty) (d' := Empty); [rewrite map_length; lia|].
+      intros i Hi. rewrite map_length in Hi.
+      change Empty with (deser_status 0%N) at 1. rewrite map_nth.
+      pose proof (idle_no_dirty (mksys s ths) i I Q ltac:(lia)) as Hnd. simpl in Hnd.
+      unfold deser_status. destruct (N.eqb (nth i (sidecar s) 0%N) 1) eqn:E.
+      + apply N.eqb_eq in E. pose proof (I_sc_nonempty _ _ I i ltac:(lia) E) as H1.
+        unfold st_at in *. destruct (nth i (status s) Empty); congruence.
+      + apply N.eqb_neq in E. unfold st_at in *.
+        destruct (nth i (status s) Empty) eqn:E2; auto; [|congruence].
+        exfalso. apply E. apply (I_sc_complete _ _ I i ltac:(lia)). exact E2. }
+    rewrite Est.
+    assert (Eall : (ncomp s =? length (status s)) = committed s /\ (ncomp s =? length (status s)) = incache s).
+    { rewrite Lst. destruct (ncomp s =? npieces c) eqn:E.
+      - apply Nat.eqb_eq in E. destruct (Hlive E). split; congruence.
+      - split; [|congruence].
+        destruct (committed s) eqn:E2; auto. pose proof (I_comm _ _ I E2). congruence. }
+    destruct Eall as [E1 E2].
+    apply tstate_ext; simpl; auto; rewrite <- Hn; auto.
+Qed.
+
+(* ---- with the blob: collision-freedom on the payloads that occur ---- *)
+Section Blob.
+Variable blob : list N.
+Hypothesis Hlen : c_len c = length blob.
+(* the only occurring payload for piece i whose checksum equals the metainfo's is piece i of the blob *)
+Hypothesis Hcf : forall w i, In w ws -> i < npieces c -> w_idx w = Z.of_nat i ->
+  w_hsum w = psum c i -> payload w = region c blob i.
+
+Lemma verified_is_blob : forall s i, length (file s) = c_len c -> i < npieces c ->
+  verified s i -> region c (file s) i = region c blob i.
+Proof.
+  intros s i Lf Hi (w & Hv & Hs & Hw). destruct Hv as (_ & Hidx & _ & Hl & Hin).
+  pose proof (Hcf w i Hin Hi Hidx Hs) as E.
+  assert (El : length (payload w) = plen c i).
+  { rewrite E. apply region_length; auto. }
+  unfold written in Hw. rewrite El in Hw. unfold region at 1. rewrite Hw. exact E.
+Qed.
+
+Lemma complete_is_blob : forall S i, SInv S -> i < npieces c -> st_at (s_st S) i = Complete ->
+  region c (file (s_st S)) i = region c blob i.
+Proof. intros S i I Hi H. apply verified_is_blob; auto; [apply I | apply complete_verified; auto]. Qed.
+
+Lemma persisted_is_blob : forall S i, SInv S -> i < npieces c -> nth i (sidecar (s_st S)) 0%N = 1%N ->
+  region c (file (s_st S)) i = region c blob i.
+Proof. intros S i I Hi H. apply verified_is_blob; auto; [apply I | apply persisted_verified; auto]. Qed.
+
+Lemma all_complete_is_blob : forall S, SInv S ->
+  (forall i, i < npieces c -> st_at (s_st S) i = Complete) -> file (s_st S) = blob.
+Proof.
+  intros S I H. apply (regions_ext c Hwf); auto; [apply I|].
+  intros i Hi. apply complete_is_blob; auto.
+Qed.
+
+Lemma cached_is_blob : forall S, SInv S ->
+  incache (s_st S) = true \/ committed (s_st S) = true -> file (s_st S) = blob.
+Proof. intros S I H. apply all_complete_is_blob; auto. apply commit_all_complete; auto. Qed.
+
+Lemma served_is_blob : forall S i d, SInv S -> get_piece c (s_st S) i = Some d -> d = region c blob i.
+Proof.
+  intros S i d I H. unfold get_piece in H.
+  destruct (i <? length (status (s_st S))) eqn:E1; simpl in H; [|discriminate].
+  destruct (pstatus_eqb (st_at (s_st S) i) Complete) eqn:E2; [|discriminate].
+  inversion H; subst. apply Nat.ltb_lt in E1. rewrite (I_len_st _ _ I) in E1.
+  apply pstatus_eqb_eq in E2. apply complete_is_blob; auto.
+Qed.
+
+Lemma accepted_is_blob : forall S w, SInv S -> In (mkth w (PDone ROk)) (s_ths S) ->
+  exists i, i < npieces c /\ w_idx w = Z.of_nat i /\ payload w = region c blob i /\
+            st_at (s_st S) i = Complete.
+Proof.
+  intros S w I Hin. pose proof (I_thr _ _ I) as H. rewrite Forall_forall in H.
+  destruct (H _ Hin) as [Hw (i & Hv & Hs & Hc)]. simpl in *.
+  exists i. destruct Hv as (Hi & Hidx & _ & _ & _). repeat split; auto.
+Qed.
+
+End Blob.
+
 End Invariant.
+
+(* ---- the checksum as a function: what the hypotheses above mean for a real metainfo ---- *)
+Section Checksum.
+Variable sum : list N -> N.
+Variable c : cfg.
+Variable blob : list N.
+Variable ws : list winput.
+(* the metainfo's piece sums are the checksums of the blob's pieces *)
+Hypothesis Hsums : forall i, i < npieces c -> psum c i = sum (region c blob i).
+(* h.Sum32() is the checksum of the streamed bytes *)
+Hypothesis Hhsum : forall w, In w ws -> w_hsum w = sum (payload w).
+(* collision-freedom of the checksum on the payloads that occur *)
+Hypothesis Hcoll : forall w i, In w ws -> i < npieces c -> w_idx w = Z.of_nat i ->
+  sum (payload w) = sum (region c blob i) -> payload w = region c blob i.
+
+Lemma cf_of_checksum : forall w i, In w ws -> i < npieces c -> w_idx w = Z.of_nat i ->
+  w_hsum w = psum c i -> payload w = region c blob i.
+Proof.
+  intros w i Hin Hi Hidx H. apply Hcoll; auto. rewrite <- Hhsum, <- Hsums; auto.
+Qed.
+
+End Checksum.
